@@ -393,6 +393,32 @@ def arith_oracle(op, args):
             return ("float", math.pow(float(a), float(b)))
         except (OverflowError, ValueError, ZeroDivisionError):
             return ("float-any",)
+    if op in ("=", "<", ">", "<=", ">="):
+        from fractions import Fraction
+        a, b = Fraction(args[0]), Fraction(args[1])
+        return ("bool", {"=": a == b, "<": a < b, ">": a > b, "<=": a <= b, ">=": a >= b}[op])
+    if op in ("min", "max"):
+        from fractions import Fraction
+        best = (min if op == "min" else max)(args, key=Fraction)
+        return ("numval", Fraction(best), {type(a).__name__ for a in args if Fraction(a) == Fraction(best)})
+    if op.startswith("string"):
+        a, b = args[0].encode(), args[1].encode()          # strings compare bytewise
+        return ("bool", {"string<": a < b, "string<=": a <= b, "string>": a > b, "string>=": a >= b, "string=": a == b}[op])
+    if op == "length":
+        return ("int", len(args[0].encode()))
+    if op == "to-string":
+        return ("str", str(args[0]))
+    if op == "to-int" and isinstance(args[0], str):
+        import re as _re
+        t = args[0]
+        if _re.fullmatch(r"[+-]?[0-9]+", t) and -(1 << 63) <= int(t) < (1 << 63):
+            return ("int", int(t))
+        return ("error",)
+    if op == "to-float" and isinstance(args[0], str):
+        try:
+            return ("float", float(args[0])) if args[0].strip() == args[0] and args[0] else ("error",)
+        except ValueError:
+            return ("error",)
     if op == "to-int":
         return ("int", int(args[0]))
     if op == "to-float":
@@ -411,13 +437,21 @@ def arith_oracle(op, args):
             return ("int", wrap(-args[0]) if len(args) == 1 else wrap(args[0] - sum(args[1:])))
         fs = [float(a) for a in args]
         if op == "+":
-            return ("float", sum(fs))          # dyadic operands: exact, so the order of addition is immaterial
+            acc = 0.0                          # a left fold in float arithmetic, every operand widened first
+            for a in fs:
+                acc += a
+            return ("float", acc)
         if op == "*":
             p = 1.0
             for a in fs:
                 p *= a
             return ("float", p)
-        return ("float", -fs[0] if len(fs) == 1 else fs[0] - sum(fs[1:]))
+        if len(fs) == 1:
+            return ("float", -fs[0])
+        acc = fs[0]
+        for a in fs[1:]:
+            acc -= a
+        return ("float", acc)
     # division: left to right; an int while both are ints and the division is exact, a float from then on
     if not args:
         return ("int", 1)
@@ -443,6 +477,18 @@ def arith_cases(rnd, n):
     small = [0, 1, -1, 2, 3, 5, -4, 12]
     fl = [0.5, 1.5, -2.5, 2.0, 0.0, 0.25, 8.0, -0.125]
     out = []
+    strs = ["", "a", "b", "ab", "B", "a b", "é", "z", "aé", "10", "9", "~", "A"]
+    for _ in range(n // 4):
+        k = rnd.random()
+        if k < 0.35:
+            out.append((rnd.choice(["=", "<", ">", "<=", ">="]), [rnd.choice(small + fl), rnd.choice(small + fl)]))
+        elif k < 0.55:
+            out.append((rnd.choice(["min", "max"]), [rnd.choice(small + fl) for _ in range(rnd.randrange(1, 5))]))
+        elif k < 0.8:
+            out.append((rnd.choice(["string<", "string<=", "string>", "string>=", "string="]), [rnd.choice(strs), rnd.choice(strs)]))
+        else:
+            out.append(rnd.choice([("to-int", [rnd.choice(["12", "-7", "0", "007", "x", "1.5", "", " 1", "9223372036854775807", "9223372036854775808"])]),
+                                   ("to-float", [rnd.choice(["1.5", "-2", "abc", "1e3", ""])]), ("to-string", [rnd.choice(big + small)]), ("length", [rnd.choice(strs)])]))
     for _ in range(n):
         if rnd.random() < 0.2:
             # other numeric leaves: mod (truncated), pow (wrapping for ints, exact dyadic cases for floats), conversions
@@ -461,7 +507,13 @@ def arith_cases(rnd, n):
         op = rnd.choice("+-*/")
         k = rnd.choice([0, 1, 2, 2, 3, 4])
         fam = rnd.random()
-        if fam < 0.45:
+        if fam < 0.12 and op in "+-":          # (for * the language reference does not say how an int prefix is folded)
+            # ints at the 64-bit and 2^53 edges NEXT TO a float: one float anywhere makes the whole fold a float fold, from
+            # the first operand on (no int arithmetic on a prefix)
+            edge = big + [(1 << 53), (1 << 53) + 1, -(1 << 53) - 1, (1 << 63) - 2]
+            args = [rnd.choice(edge) for _ in range(rnd.randrange(2, 5))]
+            args.insert(rnd.randrange(len(args) + 1), rnd.choice([0.0, 0.5, 1.0, -1.0, 2.0]))
+        elif fam < 0.45:
             args = [rnd.choice(big) for _ in range(k)]
         elif fam < 0.6:
             args = [rnd.choice(small) for _ in range(k)]
@@ -772,14 +824,26 @@ def _run(V, work, tier):
     V.coverage["traces_validated_against_impl"] = len(progs_)
     # ---- leaf law: arithmetic at the 64-bit boundaries ---------------------------------------------------------
     ac = arith_cases(rnd, 6000 if thorough else 1500)
-    ares = driver_json(binary, ["run"], [{"id": i, "seq": ["(%s %s)" % (op, " ".join(repr(a) for a in args))], "cfg": {"nocount": True, "nostdlib": True}} for i, (op, args) in enumerate(ac)])
+    lit = lambda a: json.dumps(a, ensure_ascii=False) if isinstance(a, str) else repr(a)
+    ares = driver_json(binary, ["run"], [{"id": i, "seq": ["(%s %s)" % (op, " ".join(lit(a) for a in args))], "cfg": {"nocount": True, "nostdlib": True}} for i, (op, args) in enumerate(ac)])
     for r in ares:
         op, args = ac[r["id"]]
         ev = r["runs"][0]["evals"][0]
         want = arith_oracle(op, args)
         v = ev["v"]
-        src = "(%s %s)" % (op, " ".join(repr(a) for a in args))
-        if want[0] == "error":
+        src = "(%s %s)" % (op, " ".join(lit(a) for a in args))
+        if want[0] == "bool":
+            if not (v["t"] == "sym" and v.get("s") == ("true" if want[1] else "false")):
+                V.add(None, "leaf law: %s gives %s, the comparison is %s" % (src, json.dumps(v), want[1]), {"src": src})
+        elif want[0] == "str":
+            if not (v["t"] == "str" and v["s"] == want[1]):
+                V.add(None, "leaf law: %s gives %s, expected the string %r" % (src, json.dumps(v), want[1]), {"src": src})
+        elif want[0] == "numval":
+            from fractions import Fraction
+            got = Fraction(v["n"]) if v["t"] == "int" else (Fraction(float(v["s"])) if v["t"] == "float" else None)
+            if got != want[1] or {"int": "int", "float": "float"}.get(v["t"]) not in want[2]:
+                V.add(None, "leaf law: %s gives %s, the extreme argument is %s" % (src, json.dumps(v), want[1]), {"src": src})
+        elif want[0] == "error":
             if v["t"] != "err":
                 V.add(None, "leaf law: %s gives %s, an error was expected" % (src, json.dumps(v)), {"src": src})
         elif v["t"] == "err":
